@@ -829,9 +829,11 @@ impl<'a> Ctx<'a> {
         let t = self.w.v.take_invocations().pop().unwrap();
         self.w.v.rollback(root);
         self.w.v.panics.borrow_mut().clear();
-        // classify every nested send by its call ordinal
-        let (mut tolerated, mut power_level, mut killers) = (vec![], vec![], vec![]);
-        fn visit(t: &InvocationTrace, ord: &mut u64, depth: u32, in_cb: bool, tol: &mut Vec<u64>, pl: &mut Vec<u64>, kill: &mut Vec<u64>) {
+        // classify every nested send by its call ordinal; the sends that abort a callback are grouped by kind
+        // so that the rare ones (UpdateClaimedPower, burn) are chosen as often as the frequent ones
+        let (mut tolerated, mut power_level) = (vec![], vec![]);
+        let mut killers_by_kind: BTreeMap<u8, Vec<u64>> = BTreeMap::new();
+        fn visit(t: &InvocationTrace, ord: &mut u64, depth: u32, in_cb: bool, tol: &mut Vec<u64>, pl: &mut Vec<u64>, kill: &mut BTreeMap<u8, Vec<u64>>) {
             for s in &t.subinvocations {
                 let my = *ord;
                 *ord += 1;
@@ -839,9 +841,16 @@ impl<'a> Ctx<'a> {
                 if depth == 0 {
                     if s.to == STORAGE_MARKET_ACTOR_ADDR { tol.push(my) } else { pl.push(my) }
                 } else if in_cb {
-                    if s.to == STORAGE_MARKET_ACTOR_ADDR { tol.push(my) } else { kill.push(my) }
+                    if s.to == STORAGE_MARKET_ACTOR_ADDR { tol.push(my) } else {
+                        let kind = if s.to == BURNT_FUNDS_ACTOR_ADDR { 1 }
+                            else if s.to == STORAGE_POWER_ACTOR_ADDR && s.method == PowerMethod::UpdateClaimedPower as u64 { 2 }
+                            else if s.to == STORAGE_POWER_ACTOR_ADDR && s.method == PowerMethod::UpdatePledgeTotal as u64 { 3 }
+                            else if s.to == STORAGE_POWER_ACTOR_ADDR && s.method == PowerMethod::EnrollCronEvent as u64 { 4 }
+                            else { 5 };
+                        kill.entry(kind).or_default().push(my)
+                    }
                 } else if is_cb {
-                    kill.push(my)
+                    kill.entry(0).or_default().push(my)
                 } else if depth == 1 && t.to == STORAGE_POWER_ACTOR_ADDR {
                     pl.push(my)
                 }
@@ -849,7 +858,13 @@ impl<'a> Ctx<'a> {
             }
         }
         let mut ord = 0u64;
-        visit(&t, &mut ord, 0, false, &mut tolerated, &mut power_level, &mut killers);
+        visit(&t, &mut ord, 0, false, &mut tolerated, &mut power_level, &mut killers_by_kind);
+        let rare = killers_by_kind.contains_key(&1) || killers_by_kind.contains_key(&2);
+        let allow_kill = allow_kill || (rare && self.kills < 3);
+        let killers: Vec<u64> = if killers_by_kind.is_empty() { vec![] } else {
+            let kinds: Vec<u8> = if rare { killers_by_kind.keys().cloned().filter(|k| *k == 1 || *k == 2).collect() } else { killers_by_kind.keys().cloned().collect() };
+            killers_by_kind[self.r.pick(&kinds)].clone()
+        };
         let codes = [ExitCode::USR_ILLEGAL_ARGUMENT, ExitCode::USR_ILLEGAL_STATE, ExitCode::USR_ASSERTION_FAILED, ExitCode::SYS_OUT_OF_GAS, ExitCode::USR_INSUFFICIENT_FUNDS];
         let code = *self.r.pick(&codes);
         let pick_from = match self.r.below(100) {
